@@ -25,6 +25,32 @@ CHECKS = {
         "names, leaf arity <=4.",
         "3/C01",
     ),
+    "C12": (
+        "model_checking",
+        "explorer+ScriptedSimulator+stepmachine",
+        "bounded-exhaustive enumeration of dynamic programs x condition truth tables x agent schedules (deviation-bounded), "
+        "every implementation trace compared with an explicit reference step machine",
+        "All behavior bodies up to the length bound over the dynamic statement alphabet x top-level termination constructs x "
+        "truth tables with <=2 conditions firing x timestep/step-limit variants x all agent schedules with <=2 non-default "
+        "permutations: the full event trace (compose/record/monitor/behavior/exec/step/update order), trajectory and action-log "
+        "lengths, termination step and kind equal those of the reference machine written from docs/reference/dynamic_scenarios.rst.",
+        "Trusted: the reference machine models/stepmachine.py (written from the reference text; points on which the text is silent "
+        "are not judged and listed in the evidence), the scripted simulator, conditions being pure functions of the step.",
+        "3/C12",
+    ),
+    "C13": (
+        "model_checking",
+        "ScriptedSimulator+stepmachine",
+        "bounded-exhaustive enumeration of interrupt programs x ALL truth tables of the interrupt conditions (and guard failure "
+        "points), every trace compared with the reference interrupt scheduler",
+        "All programs of the interrupt fragment (1-2 handlers, nested statements, handlers that take/do/abort/break/continue/return, "
+        "inside loops and sub-behaviours, with guards) x every step-indexed truth table of the interrupt conditions over the first "
+        "steps: the action sequence, event trace and rejection/GuardViolation outcome equal the reference scheduler; every program of "
+        "the fragment must compile.",
+        "Trusted: the interrupt scheduler of models/stepmachine.py (from statements.rst), conditions pure functions of the step. "
+        "One known finding is attributed by differential substitution (see known_findings.json).",
+        "3/C13",
+    ),
 }
 
 NOT_YET = {}
